@@ -63,6 +63,24 @@ class C12(PropBase):
             lits = ["(1, [2, 3])", "{'a': (1, {'b': 2})}", "[1, (2, [3])]", "([], {})", "{'k': ([1], [2])}", "[[1, 2], [3]]", '{"a": [1, {"b": []}]}']
             vals = [(x, x) for x in rng.sample(lits, 3)]
             items.append({"variants": [t], "vals": vals, "literal": True})
+        if rng.random() < 0.3:
+            # unions in which an earlier member takes only some values of a class that a later member
+            # takes entirely: which member answers must follow from the value, never from which
+            # values of that class were converted before
+            I, S, F = {"k": "int"}, {"k": "str"}, {"k": "float"}
+            sp = rng.choice(["pipe", "typing"])
+            t, pool = rng.choice([
+                ({"k": "union", "sp": sp, "a": [I, S]}, ["abc", "12", "x y", "7", "", "-1", "1.0"]),
+                ({"k": "union", "sp": sp, "a": [F, S]}, ["abc", "1.5", "1e3", "x", "-0.0", "12"]),
+                ({"k": "union", "sp": sp, "a": [I, F]}, [{"$f": "inf"}, {"$f": 1.5}, {"$f": "nan"}, {"$f": 2.0}, {"$f": "-inf"}, {"$f": -7.25}]),
+                ({"k": "union", "sp": sp, "a": [{"k": "lit", "v": [1, 2]}, F]}, [3, 1, 5, 2, 0]),
+                ({"k": "union", "sp": sp, "a": [{"k": "lit", "v": ["a", "b"]}, {"k": "list", "a": S}]}, ["a", "zz", "b", "q"]),
+                ({"k": "list", "a": {"k": "union", "sp": sp, "a": [I, S]}}, [{"$list": ["7", "x"]}, {"$list": ["x"]}, {"$list": ["1"]}, {"$list": ["x", "7"]}]),
+                ({"k": "dict", "a": [S, {"k": "union", "sp": sp, "a": [I, S]}]}, [{"$dict": [["a", "x"], ["b", "3"]]}, {"$dict": [["a", "3"]]}, {"$dict": [["b", "y"]]}]),
+            ])
+            vals = [(copy.deepcopy(v), copy.deepcopy(v)) for v in rng.sample(pool, min(len(pool), rng.randint(3, 5)))]
+            items.append({"variants": [t], "vals": vals, "marshal_heavy": True})
+            items.append(items[-1])  # twice as likely to be drawn
         steps: list[dict] = []
         n = rng.randint(2, 25 if tier == "quick" else 60)
         builds = []
@@ -90,6 +108,8 @@ class C12(PropBase):
             if "stack" in sw and rng.random() < 0.3:
                 step["depth"] = rng.randint(1, 40)
             kind = core.weighted(rng, [(2, "build"), (4, "marshal"), (6, "unmarshal"), (2, "encode"), (2, "decode"), (2, "roundtrip"), (2, "call")])
+            if it.get("marshal_heavy"):
+                kind = core.weighted(rng, [(6, "marshal"), (3, "encode"), (2, "unmarshal"), (1, "roundtrip")])
             if kind == "build":
                 step.update(op="build", kind=rng.choice(["marshaller", "unmarshaller", "codec"]))
                 builds.append(step)
